@@ -11,6 +11,16 @@ VERIF = os.path.dirname(os.path.dirname(os.path.abspath(__file__)))
 sys.path.insert(0, VERIF)
 
 
+def _unjson(x):
+    if isinstance(x, dict):
+        if set(x) == {"__bytes__"}:
+            return bytes.fromhex(x["__bytes__"])
+        return {k: _unjson(v) for k, v in x.items()}
+    if isinstance(x, list):
+        return [_unjson(v) for v in x]
+    return x
+
+
 def run_job(job):
     from symx.api import sx
     from symx.runner import _jsonable
@@ -19,7 +29,7 @@ def run_job(job):
         fn = getattr(mod, job["func"])
         sx.reset_unit()
         sx.begin_conc(job["inputs"])
-        out = fn(sx, **job["params"])
+        out = fn(sx, **_unjson(job["params"]))
         return dict(summary=json.loads(json.dumps(_jsonable(out))), covers=list(sx.conc_covers),
                     failures=list(sx.conc_failures))
     except BaseException as e:  # noqa
